@@ -84,6 +84,14 @@ type Knobs struct {
 	// InnerSplits: a split attached to a request cuts its region at a key strictly INSIDE it where one exists (the keys
 	// of one request end up on both sides), not at the request's first key
 	InnerSplits bool `json:"inner_splits,omitempty"`
+	// AsyncBatchGet: config.EnableAsyncBatchGet (batch gets go through the asynchronous sender and its own retry code)
+	AsyncBatchGet bool `json:"async_batch_get,omitempty"`
+	// RespLevelLockEvery (reference backend): every n-th BatchGet that meets a lock reports it in the response-level
+	// error field without any pairs
+	RespLevelLockEvery int `json:"resp_level_lock_every,omitempty"`
+	// FallbackEvery (reference backend): every n-th async-commit / 1PC prewrite request is refused that mode by the
+	// store (min_commit_ts 0), the transaction falls back to 2PC
+	FallbackEvery int `json:"fallback_every,omitempty"`
 }
 
 // delaySites: failpoints of the library whose handler sleeps OUTSIDE the failpoint package (a `sleep(n)` term sleeps
@@ -521,6 +529,59 @@ var rareFaults = []simkit.Fate{
 	simkit.REMaxTSNotSynced, simkit.REDiskFull, simkit.RERecoveryInProgress, simkit.REIsWitness, simkit.RERegionNotInitialized,
 	simkit.REKeyNotInRegion, simkit.REMismatchPeerID, simkit.REReadIndexNotReady, simkit.REProposalInMerging, simkit.REServerIsBusyHint,
 	simkit.REStoreNotMatch, simkit.ExecUndetermined, simkit.ExecUndetermined, simkit.REFlashbackInProgress, simkit.RERaftTooLarge,
+}
+
+// addReadKnobs (own random stream): asynchronous batch gets in a third of the runs, response-level lock errors in half.
+func addReadKnobs(seed uint64, sc *Scenario) {
+	r := simkit.Rand(seed, "read-knobs")
+	sc.Knobs.AsyncBatchGet = r.Intn(3) == 0
+	if r.Intn(2) == 0 {
+		sc.Knobs.RespLevelLockEvery = 1 + r.Intn(3)
+	}
+}
+
+// addFallbacks (own random stream): in a third of the runs the store refuses async commit / 1PC now and then.
+func addFallbacks(seed uint64, sc *Scenario) {
+	r := simkit.Rand(seed, "fallbacks")
+	if sc.Backend == "R" && r.Intn(3) == 0 {
+		sc.Knobs.FallbackEvery = 1 + r.Intn(3)
+	}
+}
+
+// addOnlyIfExists (own random stream): in a third of the runs, about half of the pessimistic transactions that do not use
+// fair locking turn single-key lock steps - the first one above all - into "lock only if the key exists" (with return
+// values, which that mode requires): a miss locks nothing and un-assigns a primary the call had just assigned.
+func addOnlyIfExists(seed uint64, sc *Scenario) {
+	r := simkit.Rand(seed, "only-if-exists")
+	if r.Intn(3) != 0 {
+		return
+	}
+	for i := range sc.Txns {
+		p := &sc.Txns[i]
+		if !p.Pessimistic || r.Intn(2) == 0 {
+			continue
+		}
+		agg := false
+		for _, op := range p.Ops {
+			if len(op.Kind) > 3 && op.Kind[:3] == "agg" {
+				agg = true
+			}
+		}
+		if agg {
+			continue
+		}
+		first := true
+		for j := range p.Ops {
+			op := &p.Ops[j]
+			if op.Kind != "lock" {
+				continue
+			}
+			if len(op.Keys) == 1 && op.Retry == 0 && (first || r.Intn(4) == 0) {
+				op.OnlyIfEx, op.RetVals, op.CheckExist = true, true, false
+			}
+			first = false
+		}
+	}
 }
 
 // addRareFaults (own random stream): a third of the runs with random faults also draw from the rare answers.
